@@ -322,3 +322,21 @@ def check(program: Program, run: Run) -> None:
         if f7.cls is not None and (f7.cls.is_subclass_of(selc) or f7.cls is selc) and f7.name.endswith("_sql"):
             run.finding(f"C07/alias-reference-inconsistent:{f7.qualname}:{var}", f"{f7.qualname} decides per term whether to write the select alias or the underlying column with `{var}`, {desc} that {why}: "
                         "the same name is written as the alias in SELECT and as another identifier in GROUP BY / ORDER BY", where=f7.loc(node), rule="inherited from C12/R6")
+
+    # ---- (inherited from C12/R3) a join condition rendered with with_alias=True prints the alias of every aliased term in
+    # it a second time, as a stray identifier token in the middle of the ON/USING expression
+    from . import c12
+    sub12 = Run("C12", run.tier)
+    c12.check(program, sub12)
+    n12 = 0
+    for o in sub12.obligations:
+        if o.rule.startswith("C12/R3 join condition"):
+            n12 += 1
+            run.ob("C07 (inherited from C12/R3) join condition emits no alias tokens", o.subject, o.ok, o.detail, o.where)
+    for fd in sub12.findings:
+        if not fd.info and fd.key.startswith("C12/operand-alias:Join"):
+            run.finding("C07/stray-alias-token:" + fd.key.split(":", 1)[1], "an alias supplied once (for the select list) is emitted again inside the join condition: " + fd.what,
+                        where=fd.where, rule="inherited from C12/R3")
+    if n12 < 2:
+        raise AnalysisError(f"instance count below floor: join condition obligations {n12}")
+
